@@ -26,6 +26,15 @@ pub fn build(shape: &Shape) -> dr::Module {
     if shape.header {
         let mut h = dr::ModuleHeader::new(77);
         h.set_version(1, 3);
+        // the five header words are emitted verbatim, whatever they hold: vary them with the shape
+        let k = shape.sections.iter().sum::<usize>() + shape.fns.len();
+        match k % 5 {
+            1 => { h.version = 0x0001_0601; h.generator = 0xffff_0001; }
+            2 => { h.version = 0xffff_ffff; h.bound = 0; h.reserved_word = 7; }
+            3 => { h.version = 0x0100_0000; h.magic_number = 0x0302_2307; h.generator = 0; }
+            4 => { h.version = 0x0001_0000; h.bound = u32::MAX; h.reserved_word = u32::MAX; }
+            _ => {}
+        }
         m.header = Some(h);
     }
     let mut fill = |v: &mut Vec<dr::Instruction>, n: usize, tag: &mut u32| for _ in 0..n { v.push(tagged(tag)); };
